@@ -262,15 +262,17 @@ func (k Keeper) IterateDelegations(goCtx context.Context, delegator sdk.AccAddre
 func (k Keeper) IterateBondedValidatorsByPower(goCtx context.Context, fn func(index int64, validator stakingtypes.ValidatorI) (stop bool)) error {
 	ctx := sdk.UnwrapSDKContext(goCtx)
 	commParams := k.commKeeper.GetParams(ctx)
+	params := k.GetParams(ctx)
 
-	if commParams.TotalCommitted.AmountOf(ptypes.Eden).IsPositive() {
+	// as in IterateValidators: an empty address means there is no such validator (its operator address could not be decoded)
+	if params.EdenCommitVal != "" && commParams.TotalCommitted.AmountOf(ptypes.Eden).IsPositive() {
 		edenValidator := k.GetEdenValidator(ctx)
 		if stop := fn(0, edenValidator); stop {
 			return nil
 		}
 	}
 
-	if commParams.TotalCommitted.AmountOf(ptypes.EdenB).IsPositive() {
+	if params.EdenbCommitVal != "" && commParams.TotalCommitted.AmountOf(ptypes.EdenB).IsPositive() {
 		edenBValidator := k.GetEdenBValidator(ctx)
 		if stop := fn(0, edenBValidator); stop {
 			return nil
